@@ -105,7 +105,7 @@ Section Build.
 
   Definition run_leaf (st : run_state) (leaf : bytes) : run_state :=
     let (b, t') := take_blob (rs_table st) [leaf] in
-    match handle_leaf hc (rs_world st) b with
+    match handle_leaf teqb hc (rs_world st) b with
     | Ok wr =>
         mk_rs (rs_world st) t' (rs_leaf_sent st ++ [Some (wr_tickets wr)]) (rs_node_sent st)
               (rs_results st ++ [(None, TOk wr)]) (rs_commands st)
